@@ -90,6 +90,7 @@ static void switch_to(int to)
 	errno = from >= 0 ? CO[from].saved_errno : main_errno;   /* errno is per thread */
 }
 
+void vp_co_exit(void);
 static void trampoline(void)
 {
 	int id = cur;
@@ -102,23 +103,7 @@ static void trampoline(void)
 #endif
 	errno = 0;
 	CO[id].fn(CO[id].arg);
-	CO[id].st = CO_DONE;
-	/* hand over: choose among the enabled ones, or go back to main */
-	for (;;) {
-		int en[VP_MAXCO], n = 0, i, c;
-		for (i = 0; i < nco; i++) {
-			if (CO[i].st == CO_RUNNABLE) en[n++] = i;
-			else if (CO[i].st == CO_BLOCKED && CO[i].ready(CO[i].ready_arg)) en[n++] = i;
-		}
-		if (n == 0) { switch_to(-1); }
-		else {
-			c = n > 1 ? vp_cost_choose(n, 0, "next after exit") : 0;
-			if (CO[en[c]].st == CO_BLOCKED) CO[en[c]].st = CO_RUNNABLE;
-			switch_to(en[c]);
-		}
-		/* never resumed */
-		vp_broken("finished coroutine resumed");
-	}
+	vp_co_exit();
 }
 
 int vp_co_spawn(void (*fn)(void *), void *arg, const char *name)
@@ -204,6 +189,28 @@ void vp_block(int (*ready)(void *), void *arg, const char *what)
 	}
 }
 
+/* the running coroutine ends here (pthread_exit) */
+void vp_co_exit(void)
+{
+	int id = cur;
+	if (id < 0) vp_broken("vp_co_exit outside a coroutine");
+	CO[id].st = CO_DONE;
+	for (;;) {
+		int en[VP_MAXCO], n = 0, i, c;
+		for (i = 0; i < nco; i++) {
+			if (CO[i].st == CO_RUNNABLE) en[n++] = i;
+			else if (CO[i].st == CO_BLOCKED && CO[i].ready(CO[i].ready_arg)) en[n++] = i;
+		}
+		if (n == 0) switch_to(-1);
+		else {
+			c = n > 1 ? vp_cost_choose(n, 0, "next after exit") : 0;
+			if (CO[en[c]].st == CO_BLOCKED) CO[en[c]].st = CO_RUNNABLE;
+			switch_to(en[c]);
+		}
+		vp_broken("finished coroutine resumed");
+	}
+}
+
 void vp_co_abort(void)
 {
 	aborted = 1;
@@ -257,7 +264,8 @@ void vp_access(const volatile void *addr, int size, int is_write)
 #define MAXSYNC 64
 static struct { void *addr; int owner; int kind; } LK[MAXSYNC];
 static int nlk;
-void vp_sync_reset(void) { nlk = 0; }
+static void th_reset(void);
+void vp_sync_reset(void) { nlk = 0; th_reset(); }
 static int lk_find(void *a)
 {
 	int i;
@@ -353,3 +361,66 @@ int __wrap_sem_getvalue(sem_t *s, int *v)
 	vp_local_mix(0x100 + (uint64_t)*v);
 	return r;
 }
+
+/* ------------------------------------------------------------------ threads as coroutines */
+static struct { void *(*fn)(void *); void *arg; int co; } TH[VP_MAXCO];
+static int nth;
+static void th_entry(void *p) { int i = (int)(intptr_t)p; TH[i].fn(TH[i].arg); }
+int __wrap_pthread_create(pthread_t *tid, const pthread_attr_t *attr, void *(*fn)(void *), void *arg);
+int __wrap_pthread_join(pthread_t tid, void **ret);
+void __wrap_pthread_exit(void *ret) __attribute__((noreturn));
+int __wrap_pthread_create(pthread_t *tid, const pthread_attr_t *attr, void *(*fn)(void *), void *arg)
+{
+	int i;
+	(void)attr;
+	if (!vp_sched_active && cur < 0) vp_broken("pthread_create outside the scheduler");
+	/* thread slots are per execution: slot i is valid when its coroutine id is below nco */
+	for (i = 0; i < nth; i++) if (TH[i].co >= nco) break;
+	if (i == nth) { if (nth >= VP_MAXCO) vp_broken("too many threads"); nth++; }
+	TH[i].fn = fn; TH[i].arg = arg;
+	TH[i].co = vp_co_spawn(th_entry, (void *)(intptr_t)i, "thread");
+	*tid = (pthread_t)(0x7000 + TH[i].co);
+	vp_point("pthread_create");
+	return 0;
+}
+static int co_done_pred(void *p) { return CO[(int)(intptr_t)p].st == CO_DONE; }
+int __wrap_pthread_join(pthread_t tid, void **ret)
+{
+	int co = (int)((long)tid - 0x7000);
+	if (co < 0 || co >= nco) vp_fail("pthread_join of an unknown thread id");
+	if (ret) *ret = NULL;
+	vp_point("pthread_join");
+	vp_block(co_done_pred, (void *)(intptr_t)co, "thread exit");
+	return 0;
+}
+void __wrap_pthread_exit(void *ret) { (void)ret; vp_co_exit(); for (;;) ; }
+
+/* rwlocks: writer flag + reader count per address */
+static struct { void *addr; int readers, writer; } RW[MAXSYNC];
+static int nrw;
+static int rw_find(void *a)
+{
+	int i;
+	for (i = 0; i < nrw; i++) if (RW[i].addr == a) return i;
+	if (nrw >= MAXSYNC) vp_broken("too many rwlocks");
+	RW[nrw].addr = a; RW[nrw].readers = 0; RW[nrw].writer = 0; nrw++;
+	return nrw - 1;
+}
+static int rw_can_read(void *a) { return !RW[rw_find(a)].writer; }
+static int rw_can_write(void *a) { int i = rw_find(a); return !RW[i].writer && RW[i].readers == 0; }
+int __wrap_pthread_rwlock_rdlock(pthread_rwlock_t *l);
+int __wrap_pthread_rwlock_wrlock(pthread_rwlock_t *l);
+int __wrap_pthread_rwlock_unlock(pthread_rwlock_t *l);
+int __wrap_pthread_rwlock_rdlock(pthread_rwlock_t *l) { vp_point("rdlock"); vp_block(rw_can_read, l, "rwlock(read)"); RW[rw_find(l)].readers++; return 0; }
+int __wrap_pthread_rwlock_wrlock(pthread_rwlock_t *l) { vp_point("wrlock"); vp_block(rw_can_write, l, "rwlock(write)"); RW[rw_find(l)].writer = 1; return 0; }
+int __wrap_pthread_rwlock_unlock(pthread_rwlock_t *l)
+{
+	int i;
+	vp_point("rwunlock");
+	i = rw_find(l);
+	if (RW[i].writer) RW[i].writer = 0;
+	else if (RW[i].readers > 0) RW[i].readers--;
+	else vp_fail("unlock of an rwlock that is not held");
+	return 0;
+}
+static void th_reset(void) { nth = 0; nrw = 0; }
